@@ -80,3 +80,24 @@ Theorem C19_validated_serves_needs_produces_refuted :
                    exercise (build_api regs) d o = Panicked PNoProducer [].
 Proof. exact validated_serves_needs_produces_refuted. Qed.
 Print Assumptions C19_validated_serves_needs_produces_refuted.
+
+(* the route table (DefaultRouter / AddRoute): under a well-formed base path (absent or rooted; any spelling: trailing
+   slash, dots, doubled slashes) a well-formed template (rooted, normal form; any segment bytes: dots, dashes, tildes,
+   segments equal to the base path) is recovered from path.Join(basePath, template) exactly ... *)
+Theorem C19_route_template_recovered : forall d o, wf_base (g_base d) = true -> wf_template (op_path o) = true ->
+  route_template d o = op_path o.
+Proof. exact route_template_recovered. Qed.
+Print Assumptions C19_route_template_recovered.
+
+(* ... so every declared operation of a validated API gets its route: the handler lookup of AddRoute cannot miss *)
+Theorem C19_validated_routes : forall a d o, validate a d = None -> In o (g_ops d) ->
+  wf_base (g_base d) = true -> wf_template (op_path o) = true -> route_added a d o = true.
+Proof. exact validated_routes. Qed.
+Print Assumptions C19_validated_routes.
+
+(* the guard on the template is needed: a template with a trailing slash validates and is never routed (F-C19-2) *)
+Theorem C19_validated_routes_needs_normal_template_refuted :
+  exists regs d o, validate (build_api regs) d = None /\ In o (g_ops d) /\ wf_base (g_base d) = true /\
+                   wf_template (op_path o) = false /\ route_added (build_api regs) d o = false.
+Proof. exact validated_routes_needs_normal_template_refuted. Qed.
+Print Assumptions C19_validated_routes_needs_normal_template_refuted.
